@@ -79,6 +79,22 @@ func runQuota(c *Ctx, idx int, champions bool) {
 		sc.Fitness = fitZeroSpecies
 		sc.Opts.CompatThreshold = pick(r, 0.3, 1.0, 2.0) // several species
 	}
+	if champions && idx%8 == 6 && sc.Ctor != ctorRandom {
+		// a start genome whose traits are listed 1,3,2 (first the smallest id, the others in any order - the layout of the
+		// library's own test fixture): trait references are resolved by id
+		sg := snapGenome(buildGenome(r, func() genomeSpec { sp := genSpec(r); sp.Traits = 3 + r.Intn(2); sp.TraitBase = 1; return sp }(), 1))
+		rest := sg.Traits[1:]
+		r.Shuffle(len(rest), func(i, j int) { rest[i], rest[j] = rest[j], rest[i] })
+		sc.Ctor, sc.Start, sc.StartSrc = ctorSpawn, buildFromSnap(sg), "built: traits listed 1,3,2"
+		sc.Opts.MutateNodeTraitProb = 0.5
+	}
+	if champions && idx%8 == 3 {
+		sc.Fitness = fitOldGuard
+		sc.Opts.DropOffAge = 2 + r.Intn(3)
+		sc.Opts.BabiesStolen = pick(r, sc.Opts.PopSize/2, sc.Opts.PopSize/3)
+		sc.Opts.CompatThreshold = pick(r, 0.6, 1.0, 2.0, 3.0)
+		sc.Epochs = 40 + r.Intn(20)
+	}
 	if champions && idx%5 == 1 {
 		// weights far beyond the usual range (a long run, a strong mutation power): the champion is copied all the same
 		sc.Opts.WeightMutPower = pick(r, 60.0, 400.0)
@@ -88,6 +104,12 @@ func runQuota(c *Ctx, idx int, champions bool) {
 		sc.Fitness = fitStagnating
 		sc.Opts.DropOffAge = 1 + r.Intn(5)
 		sc.Epochs = 40 + r.Intn(20)
+		if r.Intn(2) == 0 {
+			// many stolen babies while the leading species stagnate (the epochs between the species' drop-off age and the
+			// delta coding of the whole population): large left-overs to hand out
+			sc.Opts.BabiesStolen = pick(r, sc.Opts.PopSize/2, sc.Opts.PopSize/3, sc.Opts.PopSize/4)
+			sc.Opts.CompatThreshold = pick(r, 0.3, 1.0, 2.0)
+		}
 	}
 	mon := &quotaMonitor{champions: champions}
 	runScenario(c, sc, mon)
